@@ -151,7 +151,28 @@ func VerifHarness_C19_Group() {
 	a, b := verifDirectiveBody("a"), verifDirectiveBody("b")
 	var cs []*ast.Comment
 	var lines []string
-	switch nondetChoice("layout", 4) {
+	switch nondetChoice("layout", 7) {
+	case 4:
+		// an empty `//` line (paragraph break) between, before or after the two lines
+		verifAssume(verifNoByte(a, '\n') && verifNoByte(a, '\r') && verifNoByte(b, '\n') && verifNoByte(b, '\r'))
+		switch nondetChoice("empty-line-at", 3) {
+		case 0:
+			cs = []*ast.Comment{{Text: "//"}, {Text: "//" + a}, {Text: "//" + b}}
+		case 1:
+			cs = []*ast.Comment{{Text: "//" + a}, {Text: "//"}, {Text: "//" + b}}
+		default:
+			cs = []*ast.Comment{{Text: "//" + a}, {Text: "//"}, {Text: "// "}, {Text: "//" + b}, {Text: "//"}}
+		}
+		lines = []string{a, b}
+	case 5:
+		// prose and an empty line between the two lines
+		verifAssume(verifNoByte(a, '\n') && verifNoByte(a, '\r') && verifNoByte(b, '\n') && verifNoByte(b, '\r'))
+		cs, lines = []*ast.Comment{{Text: "//" + a}, {Text: "// P."}, {Text: "//"}, {Text: "// g: x"}, {Text: "//" + b}}, []string{a, b}
+	case 6:
+		// a block comment with blank lines between the two lines
+		body := a + "\n\n \n" + b + "\n"
+		verifBlockOK(body)
+		cs, lines = []*ast.Comment{{Text: "/*" + body + "*/"}}, verifSplitLines(body)
 	case 0:
 		verifAssume(verifNoByte(a, '\n') && verifNoByte(a, '\r') && verifNoByte(b, '\n') && verifNoByte(b, '\r'))
 		cs, lines = []*ast.Comment{{Text: "//" + a}, {Text: "//" + b}}, []string{a, b}
